@@ -309,35 +309,6 @@ def cancelBlock (s : State) (hash : Bytes) : State × Bool :=
         ((runEnd { s with onStopArmed := false, blockHandler := false, blockReader := false, stopped := true }).1, false)
     else ({ s with onStopArmed := false, blockHandler := false }, false)
 
-/-! ### NodeManager.nextNode (node_manager.go) over the flags of the managed nodes -/
-
-structure NodeView where
-  stopped : Bool
-  ready : Bool
-  busy : Bool
-  hasData : Bool
-deriving DecidableEq, Repr
-
-/-- the scan loop: removes stopped nodes, skips not-ready / busy / no-data nodes, wraps around once.
-    Returns the remaining node list, the new offset and the chosen node. `fuel` bounds the loop
-    (every iteration removes a node or advances the offset; one wrap). -/
-def nextNodeLoop : Nat → List NodeView → Nat → Bool → List NodeView × Nat × Option NodeView
-  | 0, nodes, off, _ => (nodes, off, none)
-  | fuel+1, nodes, off, looped =>
-    if off ≥ nodes.length then
-      if looped || nodes.length = 0 then (nodes, off, none)
-      else nextNodeLoop fuel nodes 0 true
-    else
-      match nodes[off]? with
-      | none => (nodes, off, none)
-      | some nd =>
-        if nd.stopped then nextNodeLoop fuel (nodes.eraseIdx off) off looped
-        else if !nd.ready then nextNodeLoop fuel nodes (off + 1) looped
-        else if nd.busy then nextNodeLoop fuel nodes (off + 1) looped
-        else if !nd.hasData then nextNodeLoop fuel nodes (off + 1) looped
-        else (nodes, off + 1, some nd)
-
-def nextNode (nodes : List NodeView) (off : Nat) : List NodeView × Nat × Option NodeView :=
-  if nodes.length = 0 then (nodes, off, none) else nextNodeLoop (3 * nodes.length + 3) nodes off false
+/-! `NodeManager.nextNode` and the request loops are modelled in Model/Mgr.lean (namespace `BRV.Mgr`). -/
 
 end BRV.Node
